@@ -12,15 +12,6 @@ Definition view_run (o : opts) (file content : str) (groups : list (list str * s
 
 Definition view_disk (file before : str) (st : state) : str := disk_after file before None (s_ops st).
 
-Lemma consistent_mid old log new :
-  has_sort log = false -> consistent old log new = true ->
-  exists st, In st (run_log [] log (init_blocks old)) /\ flat_blocks st = new.
-Proof.
-  intros Hs H. unfold consistent in H. apply existsb_exists in H as (st & Hin & Hf).
-  exists st. split; [exact Hin|]. unfold final_ok in Hf. rewrite Hs in Hf.
-  apply str_eqb_spec. exact Hf.
-Qed.
-
 Lemma firstn_app_exact' {A} (a b : list A) : firstn (length a) (a ++ b) = a.
 Proof. induction a; simpl; [reflexivity|]. f_equal. assumption. Qed.
 
@@ -39,22 +30,15 @@ Theorem multi_view_serial o file content groupsA evsA stA groupsB evsB stB :
                   (view_disk file mid stB) = true.
 Proof.
   intros Ha WA NA RA mid WB NB RB NeA NeB.
-  pose proof (disk_consistent_with_log o [] file content groupsA evsA stA Ha WA NA RA) as CA.
+  destruct (disk_reach o [] file content groupsA evsA stA Ha WA NA RA) as (HsA & st & Re & Hflat).
   pose proof (disk_consistent_with_log o [] file mid groupsB evsB stB Ha WB NB RB) as CB.
-  fold (view_disk file content stA) in CA. fold mid in CA. fold (view_disk file mid stB) in CB.
+  fold (view_disk file content stA) in Hflat. fold mid in Hflat. fold (view_disk file mid stB) in CB.
   set (la := entries_of file (s_log stA)) in *. set (lb := entries_of file (s_log stB)) in *.
-  assert (HsA : has_sort la = false).
-  { unfold la. apply has_sort_entries. unfold view_run in RA.
-    assert (NA' : Forall no_sort_event (evsA ++ [ESave])).
-    { apply Forall_app. split; [exact NA|]. constructor; [exact I|constructor]. }
-    exact (inv_nosort _ _ _ (run_inv o [] file content (evsA ++ [ESave]) _ _ Ha NA'
-             (init_inv file content groupsA WA) RA)). }
-  destruct (consistent_mid content la mid HsA CA) as (st & Hin & Hflat).
   cbn [consistent_hist]. apply orb_true_iff. right.
   apply existsb_exists. exists (length la). split.
   - apply in_seq. rewrite app_length. destruct la; [congruence|]. destruct lb; [congruence|]. cbn. lia.
   - rewrite firstn_app_exact', skipn_app_exact', HsA. cbn [negb andb].
-    apply existsb_exists. exists st. split; [exact Hin|]. rewrite Hflat, CB. reflexivity.
+    apply existsb_exists. exists st. split; [apply reach_run_log; exact Re|]. rewrite Hflat, CB. reflexivity.
 Qed.
 
 (* interleaved views: both are loaded from the same bytes; the first one saves, then
